@@ -17,3 +17,6 @@ $M revert 052f8af C05
 $M revert 8e0433a C06
 $M revert 30b7e8e C06
 $M revert 5b363f8 C08
+$M revert 4d6eeda C07
+$M revert 22650e6 C08
+$M revert 5e071a8 C07
